@@ -139,10 +139,24 @@ class HashedIterable(Generic[T]):
 
         :return: An iterator over the hashed values.
         """
-        yield from self.values.values()
-        for v in self.iterable:
-            self.values[v.id_] = v
-            yield v
+        index = 0
+        while True:
+            # replay by position what is cached so far: another live iterator may have cached more meanwhile
+            cached = list(self.values.values())[index:]
+            if cached:
+                for v in cached:
+                    index += 1
+                    yield v
+                continue
+            # take one new value from the shared source; it is replayed from the cache on the next round
+            if not hasattr(self.iterable, "__next__"):
+                self.iterable = iter(self.iterable)
+            for v in self.iterable:
+                if v.id_ not in self.values:
+                    self.values[v.id_] = v
+                    break
+            else:
+                return
 
     def __or__(self, other) -> HashedIterable[T]:
         return self.union(other)
